@@ -14,6 +14,9 @@ pub enum ReadOp {
     Simple { cloud: u8, opts: u8, take: u32 },
     /// blob number `which` in the list (image blobs in order, then free blobs)
     Blob { which: u8 },
+    /// the same blob extracted into a target with limited room (see `gen::LimitSink`); only used where results
+    /// are compared for equality with a fresh reader
+    BlobInto { which: u8, room: u16, mode: u8 },
 }
 
 /// Result of one read operation: the Ok items (hashed), whether the
@@ -192,6 +195,20 @@ pub fn run_op<T: Read + Seek>(rd: &mut E57Reader<T>, op: &ReadOp, free: &[(u64, 
                 Err(e) => OpOut { items: vec![], completed: false, err: Some(e.to_string()), after_err: vec![] },
             }
         }
+        ReadOp::BlobInto { which, room, mode } => {
+            let blobs = blob_list(rd, free);
+            if blobs.is_empty() {
+                return OpOut { items: vec![], completed: true, err: None, after_err: vec![] };
+            }
+            let b = &blobs[*which as usize % blobs.len()];
+            // room: a fraction of the blob's length (in 1/8 steps) or a small absolute number
+            let cap = if *room < 9 { (b.length as u128 * *room as u128 / 8).min(1 << 24) as usize } else { *room as usize };
+            let mut sink = crate::gen::LimitSink::new(cap, *mode);
+            match rd.blob(b, &mut sink) {
+                Ok(n) => OpOut { items: vec![n, sink.got.len() as u64, hash_str(&format!("{:?}", sink.got))], completed: true, err: None, after_err: vec![] },
+                Err(e) => OpOut { items: vec![], completed: false, err: Some(e.to_string()), after_err: vec![sink.got.len() as u64, hash_str(&format!("{:?}", sink.got))] },
+            }
+        }
     }
 }
 
@@ -214,11 +231,12 @@ pub fn gen_op(s: &mut Src) -> ReadOp {
         1 => s.below(6) as u32,
         _ => s.below(3000) as u32,
     };
-    match s.weighted(&[1, 1, 4, 4, 3]) {
+    match s.weighted(&[1, 1, 4, 4, 3, 2]) {
         0 => ReadOp::Xml,
         1 => ReadOp::Descriptors,
         2 => ReadOp::Raw { cloud: s.byte(), take: take(s) },
         3 => ReadOp::Simple { cloud: s.byte(), opts: s.below(64) as u8, take: take(s) },
-        _ => ReadOp::Blob { which: s.byte() },
+        4 => ReadOp::Blob { which: s.byte() },
+        _ => ReadOp::BlobInto { which: s.byte(), room: if s.flag() { s.below(9) as u16 } else { s.below(3000) as u16 }, mode: s.below(3) as u8 },
     }
 }
